@@ -11,3 +11,8 @@ def add(run, tier):
     lm = importlib.import_module('calmjs.parse.lexers.es5')
     import contracts.printers as cp
     verify_functions(run, cp.build(um, lm), {}, {}, tier=tier)
+    # the glue under every printer: rule-set merging and the per-call dispatcher (contracts/baseunparser.py)
+    import contracts.baseunparser as cb
+    bm = importlib.import_module('calmjs.parse.unparsers.base')
+    pm = importlib.import_module('calmjs.parse.parsers.es5')
+    verify_functions(run, [c for c in cb.build(bm, pm) if c.funcname.startswith('BaseUnparser.')], {}, {}, tier=tier)
